@@ -66,7 +66,8 @@ def mini_eval(node, env):
         if f in ("str", "repr") and len(args) == 1 and (args[0] is None or isinstance(args[0], (int, str, BaseException, tuple, list))):
             return str(args[0]) if f == "str" else repr(args[0])
         if f == "getattr" and len(args) == 3 and isinstance(args[1], str):
-            return getattr(args[0], args[1], args[2]) if isinstance(args[0], (type, BaseException)) else args[2]
+            import types as _types
+            return getattr(args[0], args[1], args[2]) if isinstance(args[0], (type, BaseException, _types.SimpleNamespace)) else args[2]
         meths = env.get("__methods__", {})
         if isinstance(node.func, ast.Attribute) and isinstance(node.func.value, ast.Name) and node.func.attr in meths \
                 and node.func.value.id in (env.get("__inst__"), "self", env.get("__cls__")):
@@ -136,7 +137,7 @@ def _mini_call(fn, local, env, depth=0):
     """table evaluation of a small module-level helper (if / assign / return over the constructs of mini_eval) on one row"""
     if depth > 4:
         raise KeyError("recursion")
-    e2 = {k_: v_ for k_, v_ in env.items() if k_.startswith("__") or "." in k_}
+    e2 = {k_: v_ for k_, v_ in env.items() if k_.startswith("__") or "." in k_ or k_ == "sys"}
     e2["None"] = None
     e2.update(local)
 
@@ -190,7 +191,7 @@ def check(repo, rep, tier):
     am = repo.module(AM)
 
     # ---------------- R-C18-1
-    r1 = rep.rule("R-C18-1", "hook wiring", floor=5)
+    r1 = rep.rule("R-C18-1", "hook wiring", floor=4)
     regs = []
     for m in repo.modules.values():
         for n in ast.walk(m.tree):
@@ -252,6 +253,23 @@ def check(repo, rep, tier):
         init = ci.methods.get("__init__")
         if init and "sys.exit" in norm(init.node) and "sys.excepthook" in norm(init.node):
             eo = ci
+    # the other design: uncaught exceptions are not caught by a hook of our own but read, at exit, from the interpreter's record
+    # (sys.last_exc / sys.last_value are set by the interpreter BEFORE it calls whatever sys.excepthook is installed - trusted)
+    interp_record = None          # (attribute name, FunctionInfo of the property / method reading the record)
+    if eo is None:
+        for ci in am.classes.values():
+            init = ci.methods.get("__init__")
+            if not (init and "sys.exit" in norm(init.node)):
+                continue
+            for mn_, mf_ in ci.methods.items():
+                if not isinstance(mf_.node, ast.FunctionDef) or mn_ == "__init__":
+                    continue
+                reads_ = {c_.args[1].value for c_ in ast.walk(mf_.node) if isinstance(c_, ast.Call) and norm(c_.func) == "getattr"
+                          and len(c_.args) == 3 and norm(c_.args[0]) == "sys" and isinstance(c_.args[1], ast.Constant) and norm(c_.args[2]) == "None"}
+                reads_ |= {x_.attr for x_ in ast.walk(mf_.node) if isinstance(x_, ast.Attribute) and norm(x_.value) == "sys"
+                           and x_.attr in ("last_exc", "last_value")}
+                if "last_value" in reads_ and any(isinstance(d_, ast.Name) and d_.id == "property" for d_ in mf_.node.decorator_list):
+                    eo, interp_record = ci, (mn_, mf_)
     if eo is None:
         raise AnalysisError("no class interposing sys.exit and sys.excepthook found in pysnark.atexitmaybe")
     init = eo.methods["__init__"]
@@ -286,6 +304,11 @@ def check(repo, rep, tier):
         save = [saves[hook][0]] if hook in saves else []
         inst = [insts[hook][0]] if hook in insts else []
         where = init.loc()
+        if hook == "sys.excepthook" and interp_record is not None and not inst:
+            r1.ok(interp_record[1].loc(), interp_record[1].fq, "property `%s` reads sys.last_exc / sys.last_value" % interp_record[0],
+                  "uncaught exceptions are taken from the interpreter's own record, which is written before any excepthook runs "
+                  "(so a hook installed later cannot hide them)")
+            continue
         if save and inst and saves[hook][1] < insts[hook][1]:
             saved_as = saves[hook][2]
             meth = insts[hook][2].split(".", 1)[1]
@@ -374,6 +397,8 @@ def check(repo, rep, tier):
         # (falsy non-zero objects such as '' or [] included: CPython prints them and exits with status 1)
         for ec_label, ec in (("None", None), ("0", 0), ("3", 3), ("'msg'", "msg"), ("object", o), ("''", ""), ("[]", [])):
             for ex_label, ex in (("None", None), ("raised", RuntimeError("x")), ("raised without arguments", RuntimeError())):
+                if interp_record is not None:
+                    ex_attr = interp_record[0]
                 env = {"%s.%s" % (inst, ec_attr): ec, "%s.%s" % (inst, ex_attr): ex, "None": None,
                        "__fns__": {s_.name: s_ for s_ in am.tree.body if isinstance(s_, ast.FunctionDef)},
                        "__methods__": {k_: v_.node for k_, v_ in eo.methods.items() if isinstance(v_.node, ast.FunctionDef)},
@@ -392,8 +417,24 @@ def check(repo, rep, tier):
                         r2.undecided(inner.loc(), inner.fq, norm(rx)[:80], "what the exception hook records is outside the table evaluator: %s" % e_)
                         rows = None
                         break
+                envs = [env]
+                if interp_record is not None:
+                    # the record as the interpreter leaves it: both names (3.12+), or sys.last_value only (before 3.12)
+                    import types as _types
+                    env.pop("%s.%s" % (inst, ex_attr), None)
+                    envs = []
+                    for both in (True, False):
+                        e3 = dict(env)
+                        ns = _types.SimpleNamespace()
+                        if ex is not None:
+                            ns.last_value = ex
+                            if both:
+                                ns.last_exc = ex
+                        e3["sys"] = ns
+                        envs.append(e3)
                 runs = False
                 try:
+                  for env in envs:
                     for p_ in paths:
                         env2 = dict(env)
                         feasible = True
@@ -551,6 +592,9 @@ def check(repo, rep, tier):
             r4.ok(where, eo.fq, "%s: successful end, artefacts expected" % mode)
         elif hook is not None and hook in hooks and hook in recorded:
             r4.ok(where, eo.fq, "%s: fires %s (interposed, records %s)" % (mode, hook, recorded[hook][0]))
+        elif hook == "sys.excepthook" and interp_record is not None:
+            r4.ok(interp_record[1].loc(), eo.fq, "%s: the interpreter records the exception (sys.last_exc / sys.last_value) before it "
+                  "calls any excepthook; read by `%s` at exit" % (mode, interp_record[0]))
         else:
             r4.violation(where, eo.fq, "%s: fires %s" % (mode, hook or "no interposable hook"),
                          "a run ending through `%s` with a non-zero status is not seen by the overrider: the proving step "
